@@ -260,7 +260,7 @@ def run(chk):
     quick = chk.tier == 'quick'
     exe = build()
     rng = chk.rng('ifaces')
-    nprog = 150 if quick else 2500
+    nprog = 300 if quick else 2500
     found = 0
     corpus = os.path.join(vlib.VERIF, 'corpus', 'c03_ifaces.jsonl')
     if os.path.exists(corpus):
